@@ -150,7 +150,7 @@ Eval(t, cur, H, log, fuel) ==
                   ELSE Eval(t.b[1], cur, H, a.log, fuel)
              x == a.v  y == b.v IN
          IF l = "app" THEN ApplyV(x, y, FALSE, H, b.log, fuel)
-         ELSE IF IsSkip(x) \/ IsSkip(y) THEN R(SKIP, b.log)
+         ELSE IF HasSkip(x) \/ HasSkip(y) THEN R(SKIP, b.log)
          ELSE R(CASE l \in ArithLabels -> (IF IsNum(x) /\ IsNum(y) THEN NumOp(BinIns(l), x, y) ELSE U)
                   [] l \in CmpLabels -> CmpV(BinIns(l), x, y)
                   [] l \in {"eq", "ne"} -> (IF x.t = "expr" \/ y.t = "expr" THEN SKIP ELSE EqV(BinIns(l), x, y))
